@@ -184,6 +184,8 @@ def accepts_py(S, t, v):
         return isinstance(v, str) and (t["mn"] == -1 or len(v) >= t["mn"]) and (t["mx"] == -1 or len(v) <= t["mx"])
     if k == "time":
         return v in TIMES
+    if k == "bytes":
+        return v in ("YQ==", "YWI=")
     if k == "enum":
         return isinstance(v, str) and v in t["vals"]
     if k == "ienum":
@@ -307,6 +309,8 @@ def walk(schema, path, doc=None):
     while node["k"] in ("ref", "nullable"):
         if node["k"] == "nullable":
             toks.append("nullable")
+        elif S[node["name"]]["k"] not in ("struct", "ref", "arr", "map", "dunion"):
+            toks.append("named-scalar")      # reference to a NAMED scalar / enum object
         node = S[node["name"]] if node["k"] == "ref" else node["t"]
     bk = []
     if node["k"] in ("int", "num"):
@@ -319,6 +323,63 @@ def walk(schema, path, doc=None):
         if not out or out[-1] != x:
             out.append(x)
     return (">".join(out) or "top", node["k"], bk)
+
+
+def walk_loose(schema, fields):
+    """Position class of a path given by FIELD NAMES only (arrays, maps, nullables, union branches are crossed implicitly)."""
+    S = defs_of(schema)
+    t = S[schema["root"]]
+    toks = []
+
+    def settle(t):
+        for _ in range(32):
+            k = t["k"]
+            if k == "ref":
+                tk = S[t["name"]]["k"]
+                toks.append("named-array" if tk == "arr" else "named-map" if tk == "map" else "ref" if tk in ("struct", "ref", "dunion") else "named-scalar")
+                t = S[t["name"]]
+                if tk in ("arr", "map"):
+                    t = t["t"]
+            elif k == "nullable":
+                toks.append("nullable")
+                t = t["t"]
+            elif k == "arr":
+                toks.append("array")
+                t = t["t"]
+            elif k == "map":
+                toks.append("map")
+                t = t["t"]
+            else:
+                return t
+        return t
+
+    for i, name in enumerate(fields):
+        t = settle(t)
+        if t["k"] == "dunion":
+            toks.append("union-branch")
+            hit = [S[r] for r in t["refs"] if any(f["n"] == name for f in S[r]["fields"])]
+            if not hit:
+                break
+            t = hit[0]
+        if t["k"] != "struct":
+            break
+        f = [f for f in t["fields"] if f["n"] == name]
+        if not f:
+            break
+        f = f[0]
+        if not f["req"]:
+            toks.append("optional")
+        if f["null"]:
+            toks.append("nullable")
+        if f["def"]["j"] != "none":
+            toks.append("defaulted")
+        t = f["t"]
+    t = settle(t)
+    out = []
+    for x in toks:
+        if not out or out[-1] != x:
+            out.append(x)
+    return ">".join(out) or "top", t["k"]
 
 
 def union_branch_names(schema):
@@ -442,6 +503,10 @@ def _js_type(t, openapi, refprefix):
         return {"type": "boolean"}
     if k == "time":
         return {"type": "string", "format": "date-time"}
+    if k == "bytes":
+        if not openapi:
+            raise NotExpressible("bytes: cog's JSON Schema parser has no byte strings")
+        return {"type": "string", "format": "byte"}
     if k == "enum":
         return {"type": "string", "enum": list(t["vals"])}
     if k == "ienum":
@@ -466,6 +531,11 @@ def _js_type(t, openapi, refprefix):
     if k == "map":
         return {"type": "object", "additionalProperties": _js_type(t["t"], openapi, refprefix)}
     if k == "ref":
+        if "." in t["name"]:
+            # a definition of the second package ("x.Name"): only the OpenAPI rendering spells cross-file references cog reads
+            if not openapi or _AUX[0] is None:
+                raise NotExpressible("cross-package reference")
+            return {"$ref": _AUX[0] + ".json#/components/schemas/" + t["name"].split(".", 1)[1]}
         return {"$ref": refprefix + t["name"]}
     if k == "nullable":
         return _js_nullable(t["t"], openapi, refprefix)
@@ -506,6 +576,11 @@ CUE_EXT = {}     # kind -> f(cue_renderer, t) -> CUE expression
 
 def _js_nullable(t, openapi, refprefix):
     if not openapi:
+        if t["k"] == "union":
+            # a nullable union is ONE union with a null branch (string | boolean | null), not a union inside a union
+            inner = _js_type(t, openapi, refprefix)
+            key = "anyOf" if "anyOf" in inner else "oneOf"
+            return {key: inner[key] + [{"type": "null"}]}
         return {"oneOf": [_js_type(t, openapi, refprefix), {"type": "null"}]}
     if t["k"] in ("int", "num", "str", "time"):
         out = dict(_js_type(t, openapi, refprefix))
@@ -515,15 +590,50 @@ def _js_nullable(t, openapi, refprefix):
 
 
 def render_jsonschema(schema):
+    if has_second_package(schema):
+        raise NotExpressible("two packages: cog's JSON Schema parser resolves every reference into its own package")
     doc = {"$schema": "http://json-schema.org/draft-07/schema#", "$ref": "#/definitions/" + schema["root"],
            "definitions": {d["name"]: _js_type(d["t"], False, "#/definitions/") for d in schema["defs"]}}
     return json.dumps(doc, indent=1)
 
 
-def render_openapi(schema):
-    doc = {"openapi": "3.0.0", "info": {"title": "t", "version": "0.0"}, "paths": {},
-           "components": {"schemas": {d["name"]: _js_type(d["t"], True, "#/components/schemas/") for d in schema["defs"]}}}
-    return json.dumps(doc, indent=1)
+_AUX = [None]   # file stem of the second package while an OpenAPI schema with "x." definitions is rendered
+
+
+def has_second_package(schema):
+    return any("." in d["name"] for d in schema["defs"])
+
+
+def render_openapi(schema, package=None):
+    """Definitions named "x.Name" form a second package: they go into <package>x.json and are referenced across files."""
+    head = {"openapi": "3.0.0", "info": {"title": "t", "version": "0.0"}, "paths": {}}
+    _AUX[0] = (package + "x") if (package and has_second_package(schema)) else None
+    try:
+        main = dict(head, components={"schemas": {d["name"]: _js_type(d["t"], True, "#/components/schemas/")
+                                                  for d in schema["defs"] if "." not in d["name"]}})
+        aux = None
+        if _AUX[0]:
+            stem = _AUX[0]
+            _AUX[0] = None    # inside the second file its own definitions are local; it never refers back
+            aux = dict(head, components={"schemas": {d["name"].split(".", 1)[1]: _js_type(_strip_pkg(d["t"]), True, "#/components/schemas/")
+                                                     for d in schema["defs"] if "." in d["name"]}})
+            return json.dumps(main, indent=1), {stem + ".json": json.dumps(aux, indent=1)}
+        return json.dumps(main, indent=1), None
+    finally:
+        _AUX[0] = None
+
+
+def _strip_pkg(t):
+    """References between definitions of the second package are local there."""
+    if t["k"] == "ref" and "." in t["name"]:
+        return dict(t, name=t["name"].split(".", 1)[1])
+    if t["k"] in ("arr", "map", "nullable"):
+        return dict(t, t=_strip_pkg(t["t"]))
+    if t["k"] == "struct":
+        return dict(t, fields=[dict(f, t=_strip_pkg(f["t"])) for f in t["fields"]])
+    if t["k"] == "union":
+        return dict(t, ts=[_strip_pkg(b) for b in t["ts"]])
+    return t
 
 
 class _Cue:
@@ -557,6 +667,8 @@ class _Cue:
             return " & ".join(parts)
         if k == "bool":
             return "bool"
+        if k == "bytes":
+            raise NotExpressible("bytes: a JSON string is not a CUE bytes value for the reference validator")
         if k == "time":
             self.imports.add("time")
             return "time.Time"
@@ -612,6 +724,8 @@ class _Cue:
 
 
 def render_cue(schema, package):
+    if has_second_package(schema):
+        raise NotExpressible("two packages: not rendered for CUE (needs a library import path)")
     c = _Cue()
     c.defs = defs_of(schema)
     bodies = ["#%s: %s" % (d["name"], c.ty(d["t"])) for d in schema["defs"]]
@@ -625,7 +739,7 @@ def render(schema, fmt, package):
     if fmt == "jsonschema":
         return render_jsonschema(schema)
     if fmt == "openapi":
-        return render_openapi(schema)
+        return render_openapi(schema, package)[0]
     if fmt == "cue":
         return render_cue(schema, package)
     raise ValueError(fmt)
@@ -663,14 +777,51 @@ def cue_doc_text(S, t, v):
 # ----------------------------------------------------------------------------------------------
 # TLC: catalogue and cases
 # ----------------------------------------------------------------------------------------------
-def load_catalogue(ctx):
-    r = ctx.run_tlc("SemanticsMC", "SemanticsMC.cfg", workers=4, timeout=300,
-                    constants={"Mode": '"index"', "Ids": "{}", "Fuel": 3})
+def _mc(deep):
+    return ("SemanticsDeepMC", "SemanticsDeepMC.cfg") if deep else ("SemanticsMC", "SemanticsMC.cfg")
+
+
+def _extra_file(ctx, extra):
+    d = ctx.sub("extra")
+    p = os.path.join(d, "extra.json")
+    json.dump([{"schema": e["schema"], "leaf": e["leaf"], "pos": e["pos"], "cons": bool(e.get("cons", True))} for e in (extra or [])], open(p, "w"))
+    return p
+
+
+def load_catalogue(ctx, deep=False, extra=None):
+    """deep=False: the catalogue of SemanticsMC (both tiers of every check that does not ask for more).
+    deep=True: SemanticsDeepMC = the same catalogue as a prefix + the thorough-tier sections + `extra` entries
+    (seeded draws of SemanticsSim, or the schema of a replay file)."""
+    mod, cfg = _mc(deep)
+    consts = {"Mode": '"index"', "Ids": "{}", "Fuel": 3}
+    files = None
+    if deep:
+        consts["TwoIds"] = "{}"
+        files = {"extra.json": _extra_file(ctx, extra)}
+    r = ctx.run_tlc(mod, cfg, workers=4, timeout=300, constants=consts, files=files)
     cat = {o["id"]: o for o in core.tagged_lines(r["out"], "INDEX")}
     if len(cat) != r["distinct"]:
-        raise core.Inconclusive("SemanticsMC index: %d INDEX lines for %d states" % (len(cat), r["distinct"]))
+        raise core.Inconclusive("%s index: %d INDEX lines for %d states" % (mod, len(cat), r["distinct"]))
     os.remove(r["out"])
     return cat
+
+
+def sim_draw(ctx, n, max_lvl=5, traces=60):
+    """Seeded draws from the unbounded catalogue SemanticsSim (tlc -simulate, -seed = ctx.seed): n distinct schemas,
+    deeper ones preferred. Returns catalogue entries (schema, leaf, pos, cons)."""
+    r = ctx.run_tlc("SemanticsSim", "SemanticsSim.cfg", workers=1, timeout=600, simulate="num=%d" % traces, depth=max_lvl + 1,
+                    constants={"MaxLvl": max_lvl}, files={"extra.json": _extra_file(ctx, [])})
+    seen, pool = set(), []
+    for e in core.tagged_lines(r["out"], "SIM"):
+        k = dumps(e["schema"])
+        if k not in seen and e["lvl"] >= 2:
+            seen.add(k)
+            pool.append(e)
+    os.remove(r["out"])
+    rng = random.Random(ctx.seed)
+    rng.shuffle(pool)
+    pool.sort(key=lambda e: -min(e["lvl"], 4))     # levels 4 and 5 first, then 3, then 2
+    return pool[:n]
 
 
 def select_schemas(ctx, cat, n, must=()):
@@ -707,16 +858,21 @@ def select_schemas(ctx, cat, n, must=()):
     return sorted(chosen)
 
 
-def emit_cases(ctx, ids):
-    r = ctx.run_tlc("SemanticsMC", "SemanticsMC.cfg", workers=8, timeout=1200,
-                    constants={"Mode": '"cases"', "Ids": "{%s}" % ",".join(str(i) for i in ids), "Fuel": 3})
+def emit_cases(ctx, ids, deep=False, two_ids=(), fuel=3, extra=None):
+    mod, cfg = _mc(deep)
+    consts = {"Mode": '"cases"', "Ids": "{%s}" % ",".join(str(i) for i in ids), "Fuel": fuel}
+    files = None
+    if deep:
+        consts["TwoIds"] = "{%s}" % ",".join(str(i) for i in two_ids)
+        files = {"extra.json": _extra_file(ctx, extra)}
+    r = ctx.run_tlc(mod, cfg, workers=16 if deep else 8, timeout=2400, constants=consts, files=files)
     cases = collections.defaultdict(list)
     n = 0
     for c in core.tagged_lines(r["out"], "CASE"):
         cases[c["id"]].append(c)
         n += 1
     if n != r["distinct"]:
-        raise core.Inconclusive("SemanticsMC cases: %d CASE lines for %d states" % (n, r["distinct"]))
+        raise core.Inconclusive("%s cases: %d CASE lines for %d states" % (mod, n, r["distinct"]))
     os.remove(r["out"])
     for i in cases:
         cases[i].sort(key=lambda c: (c["f"] != "base", c["f"], c["p"], dumps(c["doc"])))
@@ -733,11 +889,13 @@ def pkg_name(sid, fmt):
     return "c%04d%s" % (sid, FMT_LETTER[fmt])
 
 
-def pipeline_yaml(fmt, path, package, go_flags, extra_languages=()):
+def pipeline_yaml(fmt, path, package, go_flags, extra_languages=(), aux=()):
     if fmt == "cue":
         inp = "  - cue:\n      entrypoint: '%s'\n      package: %s\n" % (path, package)
     else:
         inp = "  - %s:\n      path: '%s'\n      package: %s\n" % (fmt, path, package)
+    for apath, apkg in aux:
+        inp += "  - %s:\n      path: '%s'\n      package: %s\n" % (fmt, apath, apkg)
     y = "debug: false\ninputs:\n" + inp + "output:\n  directory: '%l'\n  types: true\n  languages:\n"
     y += "    - go:\n        package_root: '%s/go'\n" % MODULE
     for k, v in sorted(go_flags.items()):
@@ -761,6 +919,9 @@ class Batch:
         self.timing = {}
         self.unused_imports_removed = []   # (pkg, import)
         self.tlc_cases = None
+        self.deep = False
+        self.extra = []
+        self.two_ids = []
 
 
 def generate(ctx, batch, go_flags=None, extra_languages=(), formats=FORMATS):
@@ -794,8 +955,16 @@ def generate(ctx, batch, go_flags=None, extra_languages=(), formats=FORMATS):
             else:
                 path = os.path.join(inputs, pkg + ".json")
                 open(path, "w").write(text)
+            aux = []
+            if fmt == "openapi" and has_second_package(schema):
+                for fname, atext in render_openapi(schema, pkg)[1].items():
+                    apath = os.path.join(inputs, fname)
+                    open(apath, "w").write(atext)
+                    aux.append((apath, fname[:-5]))
+                u["path"] = path      # the reference validator has to load it from disk (cross-file references)
+                u["aux_text"] = {f: t for f, t in render_openapi(schema, pkg)[1].items()}
             yp = os.path.join(inputs, pkg + ".yaml")
-            open(yp, "w").write(pipeline_yaml(fmt, path, pkg, go_flags, extra_languages))
+            open(yp, "w").write(pipeline_yaml(fmt, path, pkg, go_flags, extra_languages, aux))
             jobs.append({"id": pkg, "yaml": yp, "root": gen})
     # shard over processes: one cog pipeline per job, isolated from each other's failures
     shards = [jobs[i::NSHARDS] for i in range(NSHARDS)]
@@ -862,6 +1031,9 @@ def build(ctx, batch):
     if rc != 0 and not diags:
         core.log("\n".join(other[-30:]))
         raise core.Inconclusive("go build failed without attributable diagnostics")
+    for k in list(diags):
+        if k not in batch.units and k.endswith("x") and k[:-1] in batch.units:
+            diags[k[:-1]] = diags.get(k[:-1], []) + diags.pop(k)     # second package of a two-package unit
     retry = []
     for u in todo:
         ds = diags.get(u["pkg"], [])
@@ -1039,8 +1211,8 @@ def ref_validate(ctx, batch, items):
                 else:
                     raw = json.dumps(docs)
                     text = u["text"]
-                f.write('{"id":%s,"fmt":%s,"schema":%s,"root":%s,"docs":%s}\n' % (
-                    json.dumps(pkg), json.dumps(u["fmt"]), json.dumps(text), json.dumps(schema["root"]), raw))
+                f.write('{"id":%s,"fmt":%s,"schema":%s,"path":%s,"root":%s,"docs":%s}\n' % (
+                    json.dumps(pkg), json.dumps(u["fmt"]), json.dumps(text), json.dumps(u.get("path", "")), json.dumps(schema["root"]), raw))
         ctx.run_worker(["sem-validate"], stdin_path=inp, stdout_path=outp, timeout=1800)
         for line in open(outp):
             r = json.loads(line)
@@ -1054,20 +1226,42 @@ def ref_validate(ctx, batch, items):
 # ----------------------------------------------------------------------------------------------
 # the common batch
 # ----------------------------------------------------------------------------------------------
-def run_batch(ctx, nquick=52, go_flags=None, extra_languages=(), formats=FORMATS, select=None, must=()):
+NSIM = 240          # seeded draws from SemanticsSim per thorough run
+MAX_TWO = 900       # schemas whose two-place documents are enumerated
+
+
+def run_batch(ctx, nquick=62, go_flags=None, extra_languages=(), formats=FORMATS, select=None, must=(), deep=False, extra=None):
     """Catalogue -> selection -> cases -> generation -> build -> driver binary. Returns a Batch.
 
     select(cat) may return the list of ids to use (later properties pick schemas by tag, e.g. defaults).
+    deep=True (thorough tier of C01/C08/C13): SemanticsDeepMC's catalogue, seeded SemanticsSim draws and two-place documents.
     """
     if ctx.worker is None:
         ctx.build_worker()
     b = Batch()
-    b.cat = load_catalogue(ctx)
+    b.deep = deep
+    if deep and extra is None:
+        extra = sim_draw(ctx, NSIM)
+    b.extra = extra or []
+    b.cat = load_catalogue(ctx, deep=deep, extra=extra)
     if select is not None:
         b.ids = sorted(select(b.cat))
     else:
         b.ids = select_schemas(ctx, b.cat, nquick if ctx.quick() else len(b.cat), must)
-    b.cases, b.tlc_cases = emit_cases(ctx, b.ids)
+    if deep:
+        # two-place documents for the constraint-carrying, non-fixed schemas; deeper reference chains need more fuel,
+        # recursive schemas keep 3 (their documents grow with it)
+        two = [i for i in b.ids if b.cat[i]["cons"] and b.cat[i]["pos"] != "fixed"][:MAX_TWO]
+        rec = [i for i in b.ids if "recursive" in b.cat[i]["pos"] or b.cat[i]["leaf"] in ("tree", "kitchen-sink")]
+        rest = [i for i in b.ids if i not in set(rec)]
+        b.two_ids = two
+        c1, r1 = emit_cases(ctx, rest, deep=True, two_ids=two, fuel=5, extra=extra)
+        c2, r2 = emit_cases(ctx, rec, deep=True, two_ids=two, fuel=3, extra=extra) if rec else ({}, None)
+        b.cases = dict(c1)
+        b.cases.update(c2)
+        b.tlc_cases = r1
+    else:
+        b.cases, b.tlc_cases = emit_cases(ctx, b.ids)
     missing = [i for i in b.ids if not b.cases.get(i)]
     if missing:
         raise core.Inconclusive("no documents for schemas %s" % missing[:5])
@@ -1093,6 +1287,11 @@ STRICT_FAULTS = {"AddUndeclared": "undeclared-field", "DropRequired": "missing-r
                  "NullRequired": "null-required", "WrongType": "wrong-type"}
 JUDGED_LABELS = {"base", "alt", "BreakBound", "DropDefaulted"} | set(STRICT_FAULTS)
 NOENC = object()
+
+
+def parts(label):
+    """Labels of two-place documents are "A+B"."""
+    return label.split("+")
 
 
 def _paths(vres, schema):
@@ -1147,21 +1346,22 @@ def observe_docs(ctx, batch, reaccept=True):
             o["verrs_strict"] = _paths(r.get("validate_strict"), schema) if not o["strict_rejects"] else None
             o["enc"] = r["enc"] if (o["std_ok"] and "enc" in r and not r.get("enc_err")) else NOENC
             label = c["f"]
-            if label != "AddUndeclared" and racc != c["accepts"]:
+            lp = parts(label)
+            if "AddUndeclared" not in lp and racc != c["accepts"]:
                 # DESIGN 7 rule 4: the validators are the authority; the case is dropped and counted
                 o["dropped"] = "spec-validator-disagree"
-            if label == "BreakBound" and not o["std_ok"]:
+            if "BreakBound" in lp and not o["std_ok"] and not (set(lp) & set(STRICT_FAULTS)):
                 # the generated Go type cannot hold the value at all (e.g. CUE `int64 & >=0` becomes uint64): the bound is enforced
                 # by the type, no Go value exists that Validate() could be asked about; permissive reading, counted
                 o["dropped"] = "bound-enforced-by-go-type"
             accepted = c["accepts"] and racc is True and o["dropped"] is None
-            judged = label in JUDGED_LABELS and o["dropped"] is None
+            judged = all(x in JUDGED_LABELS for x in lp) and o["dropped"] is None
             o["judge"] = {
                 "accepted": accepted,
                 "strict": judged and o["has_strict"],
                 # DropDefaulted: the document lacks the field while the Go value holds a zero value there; C08 speaks about the value
-                "validate": judged and label != "DropDefaulted" and not c["strictRejects"] and o["verrs"] is not None,
-                "validateStrict": judged and label != "DropDefaulted" and not c["strictRejects"] and o["has_strict"] and o["verrs_strict"] is not None,
+                "validate": judged and "DropDefaulted" not in lp and not c["strictRejects"] and o["verrs"] is not None,
+                "validateStrict": judged and "DropDefaulted" not in lp and not c["strictRejects"] and o["has_strict"] and o["verrs_strict"] is not None,
             }
             lst.append(o)
         obs[u["pkg"]] = lst
@@ -1223,6 +1423,14 @@ def _slug(msg, words=5):
     return "-".join(re.findall(r"[a-z]+", msg)[:words]) or "error"
 
 
+def _site(line):
+    line = re.sub(r"\b(resource|other)\.\w+", r"\1.F", line)
+    line = re.sub(r"\b(result|i|key|parsedMap|partialArray|partialMap)\d+\b", r"\1N", line)
+    line = re.sub(r"\b[A-Z]\w*\{\}", "T{}", line)
+    line = re.sub(r"\s+", " ", line).strip()
+    return line[:90] or "?"
+
+
 def reject_class(o, which, entry, schema):
     """Witness class of a decoder refusal, computed from what the decoder said (never from the input's label):
     (message class, position class). which = "strict" | "std"."""
@@ -1230,7 +1438,10 @@ def reject_class(o, which, entry, schema):
     fam = entry["leaf"] + "@fixed" if entry["pos"] == "fixed" else entry["pos"]
     pan = rec.get(which + "_panic")
     if pan:
-        return "panic:" + _slug(pan), fam
+        # witness class of a panic: its kind and the emitted statement it happened in (identifiers normalised),
+        # not the schema: the same template line panics whatever the surrounding shape
+        msg, _, site = pan.partition(" @@ ")
+        return "panic:" + _slug(msg), "at:" + _site(site)
     paths = rec.get("strict_paths") if which == "strict" else None
     if paths:
         # several errors come in Go map order: pick a canonical one so that the signature is stable
@@ -1242,10 +1453,17 @@ def reject_class(o, which, entry, schema):
         mc = next((v for k, v in known if k in msg), None) or _slug(msg)
         segs = norm_path(paths[0]["path"], schema)
         # the strict decoder names the struct type as last segment for unexpected fields
-        pos = walk(schema, segs, o["case"]["py"])[0]
+        pos, kind, _ = walk(schema, segs, o["case"]["py"])
+        if mc == "cannot-unmarshal":
+            mc += ":" + kind        # which kind of value the decoder could not take: part of the class
         return mc, pos
     msg = rec.get(which + "_err") or ""
     mc = "cannot-unmarshal" if "cannot unmarshal" in msg else _slug(msg)
+    m = re.search(r"Go struct field (\S+) of type", msg)
+    if m:
+        # encoding/json names the field path (Root.v.c, JSON names, collections skipped): a position independent of the schema family
+        pos, kind = walk_loose(schema, m.group(1).split(".")[1:])
+        return (mc + ":" + kind if mc == "cannot-unmarshal" else mc), pos
     return mc, fam
 
 
@@ -1280,15 +1498,22 @@ def judge_docs(batch, obs, clauses):
                                              "ref_accepts": o["ref"], "reaccepted": o["reaccepted"]}})
 
             if j["strict"] and o["strict_rejects"] != c["strictRejects"]:
+                lp = parts(c["f"])
                 if c["strictRejects"]:
-                    clause = STRICT_FAULTS.get(c["f"], c["f"]) + "-accepted"
-                    if c["f"] == "WrongType":
+                    faults = sorted({STRICT_FAULTS[x] for x in lp if x in STRICT_FAULTS})
+                    clause = "+".join(faults) + "-accepted"
+                    if lp == ["WrongType"]:
                         clause += ":" + kind
                     spos = pos
                 else:
                     mc, spos = reject_class(o, "strict", entry, schema)
                     # the witness class is what the decoder said and where; only the defaulted-field case is named after the input
-                    clause = ("missing-defaulted-rejected:" + kind) if c["f"] == "DropDefaulted" else ("rejected:" + mc)
+                    if "DropDefaulted" in lp and mc == "missing-required":
+                        sp_ = sorted(o["rec"].get("strict_paths") or [], key=lambda e: (e["path"], e["msg"]))
+                        dkind = walk(schema, norm_path(sp_[0]["path"], schema), c["py"])[1] if sp_ else kind
+                        clause = "missing-defaulted-rejected:" + dkind
+                    else:
+                        clause = "rejected:" + mc
                 add("Strict", "C08/go/Strict/%s/%s" % (clause, spos),
                     "strict decoder %s %s (label %s at %s): %s" % ("accepts" if c["strictRejects"] else "rejects", dumps(c["py"]), c["f"],
                                                                     ".".join(c["p"]) or "<root>", o["rec"].get("strict_err")))
@@ -1301,7 +1526,9 @@ def judge_docs(batch, obs, clauses):
                     vpos, vkind, vbk = walk(schema, wp, c["py"])
                     what = "wrong-path" if (missing and extra) else "missed" if missing else "spurious"
                     vclause = "%s:%s.%s" % (what, vkind, "+".join(vbk) or "nobound")
-                    if what == "missed" and not real and "named-" in vpos:
+                    if what == "missed" and not real and "named-scalar" in vpos:
+                        vclause = "missed:bounds-of-named-scalar"
+                    elif what == "missed" and not real and "named-" in vpos:
                         # nothing at all is reported for items of a named collection: one class whatever the bound
                         vclause = "missed:items-of-named-collection"
                     add(name, "C08/go/Validate/%s/%s" % (vclause, vpos),
@@ -1327,8 +1554,14 @@ def judge_docs(batch, obs, clauses):
                         val = want
                         for seg in path:
                             val = val[int(seg[1:])] if isinstance(val, list) else val.get(seg) if isinstance(val, dict) else None
+                        gv = got
+                        for seg in path:
+                            gv = gv[int(seg[1:])] if isinstance(gv, list) else gv.get(seg) if isinstance(gv, dict) else None
                         if what == "dropped" and val in ([], {}) and "optional" in dpos.split(">"):
                             rcls = "optional-empty-collection-dropped"
+                        elif what == "changed" and isinstance(val, list) and isinstance(gv, str):
+                            # []uint8 is []byte for encoding/json: one class wherever the array sits
+                            rcls = "integer-array-encoded-as-base64-string"
                         else:
                             rcls = "%s:%s@%s" % (what, dkind, dpos)
                         add("RoundTrip", "C01/go/roundtrip/%s/%s" % (rcls, u["fmt"]),
@@ -1385,29 +1618,78 @@ class TraceWriter:
         u = self.batch.units[pkg]
         self.add(key, {"kind": "eq", "si": self.si(u["id"]), "pkg": pkg, "encs": [py_to_jv(e) for e in encs], "m": m})
 
+    SHARD = 40000
+
     def validate(self, strict=False, allow_violation=False):
-        """Run SemanticsTrace; returns {record index (0-based): set(violated)}."""
+        """Run SemanticsTrace; returns ({record index (0-based): set(violated)}, last TLC result). Long traces are cut into
+        shards validated by parallel TLC processes (each record is judged on its own)."""
         self.f.close()
         sp = os.path.join(self.dir, "schemas.json")
         json.dump(self.schemas, open(sp, "w"))
         if not self.keys:
             return {}, None
-        r = self.ctx.run_tlc("SemanticsTrace", "SemanticsTrace.cfg", workers=1, timeout=3000,
-                             files={"trace.ndjson": self.path, "schemas.json": sp},
-                             constants={"Strict": "TRUE" if strict else "FALSE"}, allow_violation=allow_violation)
         if strict:
+            r = self.ctx.run_tlc("SemanticsTrace", "SemanticsTrace.cfg", workers=1, timeout=3000,
+                                 files={"trace.ndjson": self.path, "schemas.json": sp},
+                                 constants={"Strict": "TRUE"}, allow_violation=allow_violation)
             return None, r
-        consumed = None
-        for line in open(r["out"], errors="replace"):
-            m = re.match(r'^<<"CONSUMED", (\d+)>>', line)
-            if m:
-                consumed = int(m.group(1))
-        if consumed != len(self.keys):
-            raise core.Inconclusive("SemanticsTrace consumed %s of %d records" % (consumed, len(self.keys)))
+        n = len(self.keys)
+        shards = []
+        if n <= self.SHARD:
+            shards.append((0, n, self.path))
+        else:
+            with open(self.path) as f:
+                start = 0
+                while start < n:
+                    end = min(n, start + self.SHARD)
+                    sp_i = os.path.join(self.dir, "shard-%d.ndjson" % start)
+                    with open(sp_i, "w") as out:
+                        for _ in range(end - start):
+                            out.write(f.readline())
+                    shards.append((start, end, sp_i))
+                    start = end
+        import threading
+        from concurrent.futures import ThreadPoolExecutor
+        lock = threading.Lock()
+        ctx = self.ctx
+
+        def one(sh):
+            start, end, path = sh
+            with lock:
+                copy = os.path.join(ctx.sub("schemas"), "schemas.json")
+                shutil.copy(sp, copy)
+            r = ctx.run_tlc("SemanticsTrace", "SemanticsTrace.cfg", workers=1, timeout=3000,
+                            files={"trace.ndjson": path, "schemas.json": copy}, constants={"Strict": "FALSE"})
+            consumed = None
+            out = {}
+            for line in open(r["out"], errors="replace"):
+                m = re.match(r'^<<"CONSUMED", (\d+)>>', line)
+                if m:
+                    consumed = int(m.group(1))
+            if consumed != end - start:
+                raise core.Inconclusive("SemanticsTrace consumed %s of %d records" % (consumed, end - start))
+            for f in core.tagged_lines(r["out"], "FAIL"):
+                out[start + f["l"] - 1] = set(f["violated"])
+            os.remove(r["out"])
+            return out, r
+
+        # ctx.sub / ctx.tlc_runs are shared: serialise directory creation
+        orig_sub = ctx.sub
+
+        def locked_sub(name):
+            with sublock:
+                return orig_sub(name)
+        sublock = threading.Lock()
+        ctx.sub = locked_sub
+        try:
+            with ThreadPoolExecutor(max_workers=min(6, len(shards))) as ex:
+                results = list(ex.map(one, shards))
+        finally:
+            ctx.sub = orig_sub
         out = {}
-        for f in core.tagged_lines(r["out"], "FAIL"):
-            out[f["l"] - 1] = set(f["violated"])
-        return out, r
+        for o, _ in results:
+            out.update(o)
+        return out, results[-1][1]
 
 
 def selftest_binding(ctx, batch, sample):
@@ -1437,17 +1719,37 @@ POSITION_CLASSES = ("top", "optional", "array", "map", "ref", "union-branch")
 MAX_DISAGREE = 0.03
 
 
+def unlisted_failures(ctx):
+    """Failures of this run whose signature is not a listed known finding."""
+    known = {k["signature"] for k in core.load_known() if k["property"] == ctx.pid and k.get("status", "known") == "known"}
+    return [f for f in ctx.failures if f["signature"] not in known]
+
+
+def vacuity_gate(ctx, vac, what="vacuous clauses / position classes (never exercised on executable code)"):
+    """A clause that was never exercised makes the run inconclusive - unless real-code violations were observed on what did
+    run: those are verdicts and are reported (exit 1); the gap is recorded as a note."""
+    if not vac:
+        return
+    if unlisted_failures(ctx):
+        ctx.notes.append("%s: %s (reported after the violations observed on the packages that do execute)" % (what, vac))
+        return
+    raise core.Inconclusive("%s: %s" % (what, vac))
+
+
 def docs_check(ctx, pid, clauses, assumptions, must=(), go_flags=None):
     replay = None
     select = None
     formats = FORMATS
+    deep = not ctx.quick()
+    extra = None
     if ctx.replay:
         replay = json.load(open(ctx.replay))["replay"]
-        select = lambda cat: [replay["schema_id"]]
+        # the schema travels with the replay file (it may be a seeded draw): it is appended to the deep catalogue and found by value
+        deep = True
+        extra = [{"schema": replay["schema"], "leaf": replay.get("leaf", "replay"), "pos": replay.get("pos", "replay"), "cons": True}]
+        select = lambda cat: [min(i for i, e in cat.items() if e["schema"] == replay["schema"])]
         formats = (replay["format"],)
-    batch = run_batch(ctx, select=select, formats=formats, must=must, go_flags=go_flags)
-    if replay and batch.cat[replay["schema_id"]]["schema"] != replay["schema"]:
-        raise core.Inconclusive("the catalogue changed: schema %d is no longer the replay's schema" % replay["schema_id"])
+    batch = run_batch(ctx, select=select, formats=formats, must=must, go_flags=go_flags, deep=deep, extra=extra)
     obs = observe_docs(ctx, batch, reaccept=("ReAccept" in clauses))
     fails = judge_docs(batch, obs, clauses)
     if replay:
@@ -1504,8 +1806,12 @@ def docs_check(ctx, pid, clauses, assumptions, must=(), go_flags=None):
                 per_pos[tok] += 1
             if pid == "C08":
                 if c["strictRejects"]:
-                    per_clause["strict:" + STRICT_FAULTS.get(c["f"], c["f"])] += 1
-                elif c["f"] in ("base", "alt"):
+                    for x in parts(c["f"]):
+                        if x in STRICT_FAULTS:
+                            per_clause["strict:" + STRICT_FAULTS[x]] += 1
+                    if "+" in c["f"]:
+                        per_clause["strict:two-place"] += 1
+                elif set(parts(c["f"])) <= {"base", "alt"}:
                     per_clause["strict:valid-accepted"] += 1
                 if j["validate"] and c["validateErrs"]:
                     per_clause["validate:violated"] += 1
@@ -1532,7 +1838,7 @@ def docs_check(ctx, pid, clauses, assumptions, must=(), go_flags=None):
     unjudged = collections.Counter()
     for pkg, lst in obs.items():
         for o in lst:
-            if o["case"]["f"] == "NonMember" and not o["dropped"]:
+            if "NonMember" in parts(o["case"]["f"]) and not o["dropped"]:
                 unjudged["strict_rejects" if o["strict_rejects"] else "strict_accepts"] += 1
                 if o["verrs"] is not None:
                     unjudged["validate_reports" if o["verrs"] else "validate_silent"] += 1
@@ -1552,8 +1858,7 @@ def docs_check(ctx, pid, clauses, assumptions, must=(), go_flags=None):
         vac += [k for k in need if per_clause[k] == 0]
         vac += ["position:" + p for p in POSITION_CLASSES if per_pos[p] == 0]
         vac += ["format:" + f for f in FORMATS if per_fmt[f] == 0]
-        if vac:
-            raise core.Inconclusive("vacuous clauses / position classes (never exercised on executable code): %s" % vac)
+        vacuity_gate(ctx, vac)
         judged = sum(per_label.values())
         if n_docs and disagree > MAX_DISAGREE * n_docs:
             raise core.Inconclusive("Accepts and the reference validators disagree on %d of %d documents" % (disagree, n_docs))
